@@ -39,6 +39,8 @@ const int Optimizer::min_loop_score = 3;
 const int Optimizer::max_sub_stack = 7;
 const int Optimizer::max_loop_stack = 6;
 
+const int Optimizer::max_loop_count = 255;
+
 int Optimizer::Stack_Analyzer::analyze_track(Song& song, Track& track, Optimizer& optimizer, int drum_mode)
 {
 	int loop_depth = 0;
@@ -456,8 +458,17 @@ void Optimizer::apply_match()
 		// Loop
 		uint32_t position = best_match.position;
 		uint32_t length = best_match.loop_position - best_match.position;
-		uint32_t repeats = (best_match.loop_length / length) + 1;
-		uint32_t break_point = best_match.loop_length % length;
+		uint32_t loop_length = best_match.loop_length;
+
+		// The loop count is a single byte (0..255). Fold at most max_loop_count repetitions
+		// into one loop: the remaining ones stay in the track as they are and are found
+		// again by the next pass.
+		uint32_t max_fold = max_loop_count - 1;
+		if(loop_length / length > max_fold || (loop_length / length == max_fold && loop_length % length))
+			loop_length = max_fold * length;
+
+		uint32_t repeats = (loop_length / length) + 1;
+		uint32_t break_point = loop_length % length;
 		if(break_point)
 			repeats++;
 
@@ -470,7 +481,7 @@ void Optimizer::apply_match()
 
 		// Delete the trailing data
 		src_events.erase(src_events.begin() + best_match.loop_position,
-			src_events.begin() + best_match.loop_position + best_match.loop_length);
+			src_events.begin() + best_match.loop_position + loop_length);
 
 		// Add loop commands
 		std::shared_ptr<InputRef> reference = src_events[position].reference;
